@@ -336,7 +336,23 @@ func checkHead(c *h.Ctx, lax bool, head *gen.N, steps *gen.N, valueJSON string, 
 	same := oh.Class == or.Class && (oh.Class != h.OK || maskedList(oh.Items) == maskedList(or.Items)) && (oh.Class == h.OK || oh.ErrText() == or.ErrText())
 	if !same {
 		c.Violate(clause, h.F("mode", modeName(lax)), fmt.Sprintf("Query(%s) = %s but Query(%s, value) = %s", htxt, oh.Summary(), rtxt, or.Summary()), cs)
-	} else {
+		return
+	}
+	c.Held(clause)
+	// the same when nothing is collected (does an item exist) and when only
+	// the first item is wanted
+	for _, entry := range []string{"exists", "first"} {
+		eh := h.Call(entry, ph, "unrelated document", opts)
+		er := h.Call(entry, pr, val, opts)
+		c.Eval(2)
+		if eh.Class == h.Panic || er.Class == h.Panic {
+			continue
+		}
+		same := eh.Class == er.Class && eh.Bool == er.Bool && (eh.Class != h.OK || maskedList([]any{eh.Val}) == maskedList([]any{er.Val}))
+		if !same {
+			c.Violate(clause, h.F("mode", modeName(lax), "entry", entry), fmt.Sprintf("%s(%s) = %s but %s(%s, value) = %s", entry, htxt, eh.Summary(), entry, rtxt, er.Summary()), cs)
+			return
+		}
 		c.Held(clause)
 	}
 }
